@@ -12,4 +12,4 @@ class IfErrorControlConstructionTokenTranslator(AbstractTranslator):
         condition = ExpressionTokenTranslator.translate(token.condition, excel, context)
         when_error = ExpressionTokenTranslator.translate(token.when_error, excel, context)
 
-        return f'self._iferror(lambda: {condition}, {when_error})'
+        return f'self._iferror(lambda: {condition}, lambda: {when_error})'
